@@ -195,7 +195,7 @@ def judge_data(vals, part, templates=None):
         for label, exact, as1, as2, regsel in ASSIGN:
             if shared and label in ("dyadic-A-only",):
                 continue
-            if kind == "float32" and not exact:
+            if (kind == "float32" or "np.float32" in ex) and not exact:
                 continue  # a tolerance of 1e-9 means nothing in single precision; the bit-exact assignments remain
             part.ev()
             exact_here = exact and "T" not in fl
